@@ -289,14 +289,22 @@ def CleanEmptyTokens (ps : PStream) : Prop :=
   ps.name.getLast? ≠ some bSlash ∧
     ∀ f ∈ ps.files, f.len = 0 → fixStreamName (pathOf ps.name f.name) = pathOf ps.name f.name
 
-/-- **C10_total for the manifest package, as far as the code allows** (after fixes 4f92334, b1a09e4):
-for *every* input string whose error-free streams are shorter than 2^64 bytes (`NoWrap64`; no
-condition on file tokens any more), `segment()` never panics; if in addition zero-length tokens and
-the stream name are in canonical form the manifest is never applied partially: either an error and
-nothing else, or every path resolves over all parsed streams. The excluded class `NoWrap64` is the
-known finding F10d (witness below). -/
-theorem C10_pkg_total_partial (txt : Bytes)
-    (hnw : ∀ ps ∈ pkgStreams txt, ps.err = false → NoWrap64 ps) :
+/-- **C10_pkg_no_panic — hypothesis-free** (after fixes 584d30b, 4f92334, 2fef6b9): for *every* input
+string, `Manifest.segment()` (hence `Extract`) reaches neither of the two `panic`s of
+`sendFileSegmentIterByName` nor an index out of range in `firstBlock`. -/
+theorem C10_pkg_no_panic (txt : Bytes) : pkgSegment txt ≠ .panic := by
+  apply segmentStreams_no_panic _ []
+  intro ps hps he
+  unfold pkgStreams at hps
+  obtain ⟨line, _, rfl⟩ := List.mem_map.mp hps
+  exact pstream_fit line he
+
+/-- **C10_pkg_total, never partially applied**: for *every* input string, `segment()` does not panic,
+and if zero-length tokens and the stream names are in canonical form (non-empty tokens are forced
+to be by fix b1a09e4) the manifest is never applied partially: either an error and nothing else, or
+every path resolves over all parsed streams. The residual hypothesis is the known finding F10e
+(witness below). -/
+theorem C10_pkg_total_partial (txt : Bytes) :
     pkgSegment txt ≠ .panic ∧
     ((∀ ps ∈ pkgStreams txt, ps.err = false → CleanEmptyTokens ps) →
       (pkgSegment txt = .err ∧ ∃ ps ∈ pkgStreams txt, ps.err = true) ∨
@@ -306,16 +314,15 @@ theorem C10_pkg_total_partial (txt : Bytes)
       ps = toPStream (ofPStream ps) ∧ PkgFit (ofPStream ps) ∧
       ∀ f ∈ ps.files, f.len > 0 → fixStreamName (pathOf ps.name f.name) = pathOf ps.name f.name := by
     intro ps hps he
-    have hps' := hps
     unfold pkgStreams at hps
     obtain ⟨line, _, rfl⟩ := List.mem_map.mp hps
-    obtain ⟨e1, e2⟩ := pstream_fit line he (hnw _ hps' he)
+    obtain ⟨e1, e2⟩ := pstream_fit line he
     refine ⟨e1, e2, ?_⟩
-    obtain ⟨s, hs, _, h2⟩ := pkgParseStream_shape line he
+    obtain ⟨s, hs, _, _, h2⟩ := pkgParseStream_shape line he
     rw [hs]
     intro f hf hpos
     exact (h2 f hf).2 hpos
-  refine ⟨segmentStreams_no_panic _ [] (fun ps hps he => ⟨(hshape ps hps he).1, (hshape ps hps he).2.1⟩), ?_⟩
+  refine ⟨C10_pkg_no_panic txt, ?_⟩
   intro hclean
   have hwf : ∀ ps ∈ pkgStreams txt, ps.err = false → ps = toPStream (ofPStream ps) ∧ PkgWf (ofPStream ps) := by
     intro ps hps he
@@ -353,16 +360,37 @@ example : ∀ s ∈ wF3M, FitsGo s ∧ FitsFs s := by
 example : TreeConsistent wF3M := by decide +kernel
 example : resolve wF3M [46, 47, 102] = [⟨[97, 97, 97, 97, 97, 97, 97, 97, 97, 97, 97, 97, 97, 97, 97, 97, 97, 97, 97, 97, 97, 97, 97, 97, 97, 97, 97, 97, 97, 97, 97, 97, 43, 51], 2, 1⟩, ⟨[98, 98, 98, 98, 98, 98, 98, 98, 98, 98, 98, 98, 98, 98, 98, 98, 98, 98, 98, 98, 98, 98, 98, 98, 98, 98, 98, 98, 98, 98, 98, 98, 43, 53], 0, 3⟩] := by decide +kernel
 
-/-- **finding F10d** — `C10_pkg_total_Full` is still false: the block sizes of a stream are summed
-in uint64; here they add up to 2^64+3, the offsets array wraps to `[0,0,2,2^63+1,0,3]`, the file
-token `0:3` passes the range test and the segment iterator panics ("Block end 0 comes before start
-of file segment 0"). -/
-def wF10d : Bytes := [46, 32, 100, 52, 49, 100, 56, 99, 100, 57, 56, 102, 48, 48, 98, 50, 48, 52, 101, 57, 56, 48, 48, 57, 57, 56, 101, 99, 102, 56, 52, 50, 55, 101, 43, 48, 32, 97, 97, 97, 97, 97, 97, 97, 97, 97, 97, 97, 97, 97, 97, 97, 97, 97, 97, 97, 97, 97, 97, 97, 97, 97, 97, 97, 97, 97, 97, 97, 97, 43, 50, 32, 98, 98, 98, 98, 98, 98, 98, 98, 98, 98, 98, 98, 98, 98, 98, 98, 98, 98, 98, 98, 98, 98, 98, 98, 98, 98, 98, 98, 98, 98, 98, 98, 43, 57, 50, 50, 51, 51, 55, 50, 48, 51, 54, 56, 53, 52, 55, 55, 53, 56, 48, 55, 32, 98, 98, 98, 98, 98, 98, 98, 98, 98, 98, 98, 98, 98, 98, 98, 98, 98, 98, 98, 98, 98, 98, 98, 98, 98, 98, 98, 98, 98, 98, 98, 98, 43, 57, 50, 50, 51, 51, 55, 50, 48, 51, 54, 56, 53, 52, 55, 55, 53, 56, 48, 55, 32, 99, 99, 99, 99, 99, 99, 99, 99, 99, 99, 99, 99, 99, 99, 99, 99, 99, 99, 99, 99, 99, 99, 99, 99, 99, 99, 99, 99, 99, 99, 99, 99, 43, 51, 32, 48, 58, 51, 58, 102, 10]
+/-- **finding F10e** — `C10_pkg_total_Full` is false in its second half: a *zero-length* token is
+exempt from the canonical-path test (the collection filesystem writes `.` directory markers), and
+one whose name cleans to a sibling's path picks up the sibling's data: in `. a…a+3 0:3:a 0:0:./a`
+the empty file `././a` comes out with `a`'s three bytes. -/
+def wF10e : Bytes := [46, 32, 97, 97, 97, 97, 97, 97, 97, 97, 97, 97, 97, 97, 97, 97, 97, 97, 97, 97, 97, 97, 97, 97, 97, 97, 97, 97, 97, 97, 97, 97, 97, 97, 43, 51, 32, 48, 58, 51, 58, 97, 32, 48, 58, 48, 58, 46, 47, 97, 10]
+
+def wF10eMap : SegMap :=
+  [(([46], [97]), [⟨[97, 97, 97, 97, 97, 97, 97, 97, 97, 97, 97, 97, 97, 97, 97, 97, 97, 97, 97, 97, 97, 97, 97, 97, 97, 97, 97, 97, 97, 97, 97, 97, 43, 51], 0, 3⟩]), (([46, 47, 46], [97]), [⟨[97, 97, 97, 97, 97, 97, 97, 97, 97, 97, 97, 97, 97, 97, 97, 97, 97, 97, 97, 97, 97, 97, 97, 97, 97, 97, 97, 97, 97, 97, 97, 97, 43, 51], 0, 3⟩])]
 
 set_option maxRecDepth 100000 in
-theorem wF10d_panics : pkgSegment wF10d = .panic := by decide +kernel
+theorem wF10e_misapplied :
+    pkgSegment wF10e = .ok wF10eMap ∧
+    segLookup wF10eMap (splitPath (pathOf [46] [46, 47, 97])) = [⟨[97, 97, 97, 97, 97, 97, 97, 97, 97, 97, 97, 97, 97, 97, 97, 97, 97, 97, 97, 97, 97, 97, 97, 97, 97, 97, 97, 97, 97, 97, 97, 97, 43, 51], 0, 3⟩] ∧
+    resolve (pkgParsed wF10e) (pathOf [46] [46, 47, 97]) = [] := by
+  refine ⟨by decide +kernel, by decide +kernel, by decide +kernel⟩
 
-theorem C10_pkg_total_full_fails : ¬ C10_pkg_total_Full := fun h => (h wF10d).1 wF10d_panics
+theorem C10_pkg_total_full_fails : ¬ C10_pkg_total_Full := by
+  intro h
+  obtain ⟨hm, hl, hr⟩ := wF10e_misapplied
+  rcases (h wF10e).2 with he | ⟨m', hm', h2⟩
+  · rw [hm] at he; cases he
+  · rw [hm] at hm'; cases hm'
+    have := h2 [46] [46, 47, 97]
+    rw [hl, hr] at this
+    cases this
+
+/-- the witness of the repaired finding F10d (stream length wraps around 2^64; fix 2fef6b9) is now
+rejected with an error -/
+def wF10d : Bytes := [46, 32, 100, 52, 49, 100, 56, 99, 100, 57, 56, 102, 48, 48, 98, 50, 48, 52, 101, 57, 56, 48, 48, 57, 57, 56, 101, 99, 102, 56, 52, 50, 55, 101, 43, 48, 32, 97, 97, 97, 97, 97, 97, 97, 97, 97, 97, 97, 97, 97, 97, 97, 97, 97, 97, 97, 97, 97, 97, 97, 97, 97, 97, 97, 97, 97, 97, 97, 97, 43, 50, 32, 98, 98, 98, 98, 98, 98, 98, 98, 98, 98, 98, 98, 98, 98, 98, 98, 98, 98, 98, 98, 98, 98, 98, 98, 98, 98, 98, 98, 98, 98, 98, 98, 43, 57, 50, 50, 51, 51, 55, 50, 48, 51, 54, 56, 53, 52, 55, 55, 53, 56, 48, 55, 32, 98, 98, 98, 98, 98, 98, 98, 98, 98, 98, 98, 98, 98, 98, 98, 98, 98, 98, 98, 98, 98, 98, 98, 98, 98, 98, 98, 98, 98, 98, 98, 98, 43, 57, 50, 50, 51, 51, 55, 50, 48, 51, 54, 56, 53, 52, 55, 55, 53, 56, 48, 55, 32, 99, 99, 99, 99, 99, 99, 99, 99, 99, 99, 99, 99, 99, 99, 99, 99, 99, 99, 99, 99, 99, 99, 99, 99, 99, 99, 99, 99, 99, 99, 99, 99, 43, 51, 32, 48, 58, 51, 58, 102, 10]
+set_option maxRecDepth 100000 in
+theorem wF10d_rejected : pkgSegment wF10d = .err := by decide +kernel
 
 /-- the witnesses of the repaired findings F10a (uint64 wrap of `pos+size`; fix 4f92334) and F10c
 (names altered by `path.Clean`; fix b1a09e4) are now rejected with an error -/
